@@ -57,11 +57,16 @@ type c10Case struct {
 	Threads [][]string `json:"threads"`
 	Peer    []string   `json:"peer_script"`
 	Delays  bool       `json:"delay_injection"`
+	Handler string     `json:"data_handler,omitempty"`
 }
 
 var c10Ops = []string{"open-bg", "open-wait", "close", "send-w", "send", "send-async", "update-config", "pause", "close", "send-w"}
 
-var c10PeerOps = []string{"serve", "serve", "connect-only", "drop", "reset", "stall", "refuse", "late-connect", "pause"}
+var c10PeerOps = []string{"serve", "serve", "connect-only", "drop", "reset", "stall", "refuse", "late-connect", "pause", "primary", "primary"}
+
+// data handlers always return (the property's premise); "slow" ones take 5..80 ms (close timeout 500 ms), "sends"
+// ones reply and send from inside the handler
+var c10Handlers = []string{"immediate", "slow", "sends"}
 
 func c10Worker(env *fw.Env) {
 	total := int64(env.Pick(360, 4000))
@@ -238,6 +243,7 @@ func c10One(env *fw.Env, i int64) {
 	for k, n := 0, 3+r.IntN(6); k < n; k++ {
 		cs.Peer = append(cs.Peer, c10PeerOps[r.IntN(len(c10PeerOps))])
 	}
+	cs.Handler = c10Handlers[r.IntN(len(c10Handlers))]
 	env.Begin(i, cs)
 	env.Sample(cs)
 	env.Eval(fw.HashStr("c10", fmt.Sprint(cs)), hasClose)
@@ -251,7 +257,21 @@ func c10One(env *fw.Env, i int64) {
 		env.Discard()
 		return
 	}
-	rg.Conn.AddDataMessageHandler(func(*hsms.DataMessage, hsms.SECS2Endpoint) {})
+	rg.Conn.AddDataMessageHandler(func(m *hsms.DataMessage, ep hsms.SECS2Endpoint) {
+		env.Event("handler_invocations", 1)
+		switch cs.Handler {
+		case "slow":
+			sb := m.SystemBytes()
+			time.Sleep(time.Duration(5+splitmix(uint64(sb[3])+uint64(i)*131)%76) * time.Millisecond)
+		case "sends":
+			ctx, cancel := context.WithTimeout(context.Background(), 200*time.Millisecond)
+			if m.WaitBit() {
+				_ = ep.ReplyDataMessage(ctx, m, secs2.A("reply from the handler"))
+			}
+			_, _ = ep.SendDataMessage(ctx, 6, 11, false, secs2.A("event from the handler"))
+			cancel()
+		}
+	})
 	rg.Conn.AddConnStateChangeHandler(func(_, _ hsms.ConnState) {})
 	if cs.Delays {
 		undo := installDelays(env.Seed+uint64(i)*19, 800*time.Microsecond, 3, "hsms.teardown.afterCancel", "hsms.connectLoop.afterPublish", "hsms.react.beforeTeardown",
@@ -330,6 +350,10 @@ func c10One(env *fw.Env, i int64) {
 			case "serve":
 				if c := connectPeer(true); c != nil {
 					cur = c
+					if cs.Handler != "immediate" { // give the handlers something to be busy with when the program closes
+						_ = c.Send(peer.Data(1, 13, true, 0x1234, 0x10110000|uint32(k&0xFFFF), nil), peer.Data(1, 13, false, 0x1234, 0x10120000|uint32(k&0xFFFF), nil))
+						env.Event("peer_primaries", 2)
+					}
 				}
 			case "connect-only":
 				if c := connectPeer(false); c != nil {
@@ -355,6 +379,11 @@ func c10One(env *fw.Env, i int64) {
 				lateGate.Store(true)
 				if c := connectPeer(true); c != nil {
 					cur = c
+				}
+			case "primary":
+				if cur != nil {
+					_ = cur.Send(peer.Data(1, 13, k%2 == 0, 0x1234, 0x10100000|uint32(k&0xFFFF), nil))
+					env.Event("peer_primaries", 1)
 				}
 			default:
 				time.Sleep(time.Duration(1+k%5) * time.Millisecond)
